@@ -536,6 +536,20 @@ pub fn scenarios(t: &Tables, seeds: &[String], seed: u64, n_small: usize, n_mate
             }
         }
     }
+    // a move of the mover stalemates the opponent (a stalemate one ply away must never be announced as a mate)
+    count = 0;
+    tries = 0;
+    while count < n_mate / 2 && tries < 400000 {
+        tries += 1;
+        let (s, w) = kits[rng.gen_range(0..kits.len())];
+        if let Some(b) = random_endgame(t, &mut rng, s, w) {
+            let ms = generate_moves(&b, MoveGenerationMode::AllMoves, &t.hasher);
+            if ms.iter().any(|m| !is_check(m, m.to_move) && generate_moves(m, MoveGenerationMode::AllMoves, &t.hasher).is_empty()) {
+                out.push(json!({"tag": "mate", "cmd": format!("position fen {}", to_fen(&b, 0, 1))}));
+                count += 1;
+            }
+        }
+    }
     // mate in one for X in P0, reached again by Y after X a-b, Y c-d, X b-a: Y must not step back into P0 (second
     // occurrence, not a draw) when it has a safe alternative
     count = 0;
